@@ -1,7 +1,9 @@
 #!/bin/bash
 # confirm_queue.sh <worker-id> ID/x ... : confirm seeded changes one after another in /tmp/confirm-wt<worker-id>
+# (ROOT=/tmp/mut-out by default)
 W=$1; shift
+ROOT=${ROOT:-/tmp/mut-out}
 for m in "$@"; do
-  [ -f /tmp/mut-out/$m/confirm.json ] && grep -q '"repo_head"' /tmp/mut-out/$m/confirm.json && [ -z "${FORCE:-}" ] && { echo "skip $m"; continue; }
-  /verif/lib/confirm_seed.sh /tmp/mut-out/$m /tmp/confirm-wt$W
+  [ -f $ROOT/$m/confirm.json ] && grep -q '"repo_head"' $ROOT/$m/confirm.json && [ -z "${FORCE:-}" ] && { echo "skip $m"; continue; }
+  /verif/lib/confirm_seed.sh $ROOT/$m /tmp/confirm-wt$W
 done
